@@ -35,11 +35,17 @@ def _load_driver(pid):
 
 def _load_findings(here, pid):
     path = os.path.join(here, "known_findings.json")
-    if not os.path.exists(path):
-        return []
-    with open(path) as fh:
-        doc = json.load(fh)
-    return [f for f in doc.get("findings", []) if f.get("property") == pid]
+    out = []
+    if os.path.exists(path):
+        with open(path) as fh:
+            doc = json.load(fh)
+        out = [f for f in doc.get("findings", []) if f.get("property") == pid]
+    extra = os.environ.get("VERIF_FINDINGS")      # development aid only; registered commands never set it
+    if extra and os.path.exists(extra):
+        with open(extra) as fh:
+            doc = json.load(fh)
+        out += [f for f in (doc if isinstance(doc, list) else doc.get("findings", [])) if f.get("property") == pid]
+    return out
 
 
 def finding_matches(finding, viol):
@@ -209,6 +215,7 @@ def main(argv, here):
     # confirm new violations in a fresh interpreter before believing them
     confirmed = []
     per_clause = {}
+    new.sort(key=lambda v: (len(canon_json(v["case"])), canon_json(v["case"])))   # simplest first
     for v in new:
         c = v["clause"]
         if per_clause.get(c, 0) >= MAX_CONFIRM_PER_CLAUSE:
